@@ -79,9 +79,16 @@ func (c *Conn) CloseRead(ctx context.Context) context.Context {
 		defer cancel()
 		defer c.close()
 		_, _, err := c.Reader(ctx)
-		if err == nil && c.casClosing() {
-			// Not c.Close as it waits for this very goroutine to exit.
-			c.closeHandshake(StatusPolicyViolation, "unexpected data message")
+		if err == nil {
+			if c.casClosing() {
+				// Not c.Close as it waits for this very goroutine to exit.
+				c.closeHandshake(StatusPolicyViolation, "unexpected data message")
+			} else {
+				// Close or CloseNow is already in progress. Close discards data
+				// messages itself while it waits for the peer's close frame, so
+				// leave the transport alone until it is done.
+				<-c.closed
+			}
 		}
 	}()
 	return ctx
